@@ -388,6 +388,16 @@ def run(repo: Repo) -> Result:
             else f"{f} is judged in {mode} mode {gran}: something filters between the query result and the judgement, so should/should_not are no longer complementary" + (f" [{detail}]" if detail else ""),
             where(h, h.node) if h is not None else where(grv, grv.node), "structural", und,
         )
+    # premise of "'empty list for the key' vs 'non-empty list' are exact complements" (and of the bucket equalities below): every
+    # requested key is present in the query result and holds its own search result. C11.R4 decides exactly that on the three public
+    # queries; without it a pair missing from the result makes both 'should' and 'should not' pass (seeded_r12/C12-23).
+    from . import c11
+
+    tmp11 = Result("C11")
+    c11.run_r4(repo, tmp11)
+    n11 = _relabel(tmp11, res, "C11.R4", "C12.NEG", only=lambda o: "[all keys]" in o.construct or "[result per key]" in o.construct)
+    if n11 < 6:
+        raise AnalysisError(f"C12.NEG: only {n11} 'every key has its own entry' obligations found on the public queries (6 confirmed by hand)")
     # ---- decomposition
     for exc in (False, True):
         for imp in (True, False):
